@@ -1,37 +1,47 @@
 #!/bin/bash
-# Runs every seeded change (and every selftest canary) against the check of the property it breaks and writes
-# /verif/seeded/MATRIX.md + matrix.json.  Requires a clean /repo; applies each patch, runs, reverts.
+# Runs every seeded change and every selftest canary against the check of the property it breaks and writes
+# /verif/seeded/MATRIX.md + matrix.json.  Each change is applied to a scratch copy of /repo's committed tree (git
+# archive HEAD, under /tmp, removed at once) and the check runs there with --repo; J jobs in parallel (default 4).
+#   seed_matrix.sh --in-repo <seed-id>...   applies the named seeded changes to /repo itself instead (git apply, run the
+#   check, git checkout -- .), the way a registered command sees them; requires a clean /repo.
 cd /verif
-if [ -n "$(git -C /repo status --porcelain)" ]; then echo "/repo has uncommitted changes: commit them first"; exit 2; fi
-[ -x bin/govc ] || ./check --build-only >/dev/null 2>&1
-out=seeded/matrix.json; md=seeded/MATRIX.md
-echo "[" > $out; first=1
-echo "| change | property | caught | failing obligations (first 3) | replayed input |" > $md
-echo "|---|---|---|---|---|" >> $md
-run_one() { # name patch prop
-  local name=$1 patch=$2 prop=$3
-  git -C /repo apply "$patch" || { echo "cannot apply $patch"; return; }
-  local o rc
-  o=$(./bin/govc check --no-evidence $prop 2>&1); rc=$?
-  git -C /repo checkout -- .
-  local nv obs replay
+J=${J:-4}
+one() {
+  name=$1; patch=$2; prop=$3
+  tmp=$(mktemp -d /tmp/matcopy.XXXX)
+  (git -C /repo archive HEAD | tar -x -C $tmp) && patch -p1 -s --no-backup-if-mismatch -d $tmp -i $patch >/dev/null 2>&1 || { rm -rf $tmp; echo "{\"change\":\"$name\",\"property\":\"$prop\",\"exit\":2,\"violations\":0,\"caught\":\"noapply\",\"replayed\":\"no\",\"obligations\":\"\"}"; return; }
+  o=$(./bin/govc check --no-evidence --repo $tmp $prop 2>&1); rc=$?
+  rm -rf $tmp
   nv=$(echo "$o" | grep -c '^VIOLATION')
-  obs=$(echo "$o" | grep '^VIOLATION' | sed 's/.*obligation=//; s/ no-failing-input-found//' | head -3 | tr '\n' ';')
+  obs=$(echo "$o" | grep '^VIOLATION' | sed 's/.*obligation=//; s/ no-failing-input-found//' | head -3 | tr '\n' ';' | sed 's/\\/\\\\/g; s/"/\\"/g')
   if echo "$o" | grep '^VIOLATION' | grep -qv 'no-failing-input-found'; then replay=yes; else replay=no; fi
-  local caught=no; [ $rc -eq 1 ] && [ $nv -gt 0 ] && caught=yes
-  [ $first -eq 1 ] || echo "," >> $out; first=0
-  printf '{"change":"%s","property":"%s","exit":%d,"violations":%d,"caught":"%s","replayed":"%s","obligations":"%s"}' "$name" "$prop" $rc $nv $caught $replay "$(echo "$obs" | sed 's/"/\\"/g')" >> $out
-  echo "| $name | $prop | $caught | \`$(echo "$obs" | cut -c1-230)\` | $replay |" >> $md
-  echo "$name $prop caught=$caught nv=$nv"
+  caught=no; [ $rc -eq 1 ] && [ $nv -gt 0 ] && caught=yes
+  echo "{\"change\":\"$name\",\"property\":\"$prop\",\"exit\":$rc,\"violations\":$nv,\"caught\":\"$caught\",\"replayed\":\"$replay\",\"obligations\":\"$obs\"}"
 }
-for d in seeded/C*/; do
-  id=$(basename $d); prop=${id%-*}
-  [ -n "$1" ] && [[ "$id" != $1* ]] && continue
-  run_one "seeded/$id" /verif/seeded/$id/patch.diff $prop
-done
-for p in selftest/mutants/*.patch; do
-  n=$(basename $p .patch); prop=${n%%-*}
-  [ -n "$1" ] && [[ "$n" != $1* ]] && continue
-  run_one "canary/$n" /verif/$p $prop
-done
-echo "]" >> $out
+export -f one
+if [ "$1" = "--in-repo" ]; then
+  shift
+  if [ -n "$(git -C /repo status --porcelain)" ]; then echo "/repo has uncommitted changes: commit them first"; exit 2; fi
+  for id in "$@"; do
+    prop=${id%-*}; git -C /repo apply /verif/seeded/$id/patch.diff || continue
+    o=$(./bin/govc check --no-evidence $prop 2>&1); rc=$?
+    git -C /repo checkout -- .
+    echo "in-repo $id rc=$rc $(echo "$o" | grep -c '^VIOLATION') violations"
+  done
+  exit 0
+fi
+{
+for d in seeded/C*/; do id=$(basename $d); echo "seeded/$id /verif/seeded/$id/patch.diff ${id%-*}"; done
+for p in selftest/mutants/*.patch; do n=$(basename $p .patch); echo "canary/$n /verif/$p ${n%%-*}"; done
+} | xargs -P $J -L 1 bash -c 'one "$0" "$1" "$2"' > /tmp/matrix.lines 2>/dev/null
+python3 - <<'PY'
+import json
+rows=[json.loads(l) for l in open('/tmp/matrix.lines') if l.strip().startswith('{')]
+rows.sort(key=lambda r:(r['change'].split('/')[0]!='seeded', r['change']))
+json.dump(rows, open('/verif/seeded/matrix.json','w'), indent=0)
+with open('/verif/seeded/MATRIX.md','w') as f:
+    f.write("| change | property | caught | failing obligations (first 3) | replayed input |\n|---|---|---|---|---|\n")
+    for r in rows:
+        f.write(f"| {r['change']} | {r['property']} | {r['caught']} | `{r['obligations'][:230]}` | {r['replayed']} |\n")
+print(len(rows), "rows;", sum(1 for r in rows if r['caught']!='yes'), "not caught")
+PY
